@@ -53,6 +53,7 @@ type ScEndpoint struct {
 	Kind        string `json:"kind"` // custom | tcp_server | udp_server | tcp_client | udp_client | serial | bad_address | busy_port
 	SerialFails int    `json:"serial_fails"`
 	LMode       string `json:"lmode"` // tcp_client: initial behaviour of the fake server (accept | refuse | accept_close)
+	Drain       bool   `json:"drain"` // custom: data queued before Close is still readable after Close (like a pipe)
 }
 
 type ScItem struct {
@@ -114,6 +115,7 @@ type ctlRWC struct {
 	wmode  string
 	wcount int
 	failAt int
+	drain  bool  // queued data stays readable after Close
 	okCnt  int64 // completed writes (pacing only)
 	sick   bool  // a write was blocked or failed: excluded from pacing
 }
@@ -128,7 +130,7 @@ func (c *ctlRWC) Read(b []byte) (int, error) {
 	c.mu.Lock()
 	defer c.mu.Unlock()
 	for {
-		if c.closed {
+		if c.closed && !(c.drain && len(c.inq) > 0) {
 			return 0, errClosedT
 		}
 		if len(c.rerr) > 0 && c.rerrAt[0] <= c.taken {
@@ -254,6 +256,7 @@ type player struct {
 	evClosed  chan struct{}
 	closeFromLoopOn int // tag: consumer calls Close when it receives the frame with this tag (0 = never)
 	closeOnce sync.Once
+	closeStarted bool
 	closeDone chan struct{}
 
 	writers map[int]chan func()
@@ -265,6 +268,8 @@ type player struct {
 	lmode     map[int]string
 	serialFailsLeft map[int]int
 	peerSeq   map[int]int
+	peerEnded map[[2]int]bool
+	serials   []*ctlRWC
 	lastAct   int64
 	expect    map[int]int64 // frames the harness expects on each custom endpoint (pacing only, never a verdict)
 }
@@ -540,6 +545,14 @@ func (p *player) consumer() {
 }
 
 func (p *player) doClose(from string) {
+	// a second caller must not wait for the first one (sync.Once would): if Close hangs, the player still has to finish
+	p.mu.Lock()
+	started := p.closeStarted
+	p.closeStarted = true
+	p.mu.Unlock()
+	if started {
+		return
+	}
 	p.closeOnce.Do(func() {
 		p.rec.Put(M{"e": "CloseInv", "from": from, "t": p.ms()})
 		// gates may only delay goroutines: shortly after Close is invoked every gate is released
@@ -677,6 +690,9 @@ func (p *player) peerReader(ep, peer int, c net.Conn) {
 			p.rec.Put(M{"e": "TW", "ep": ep, "peer": peer, "bytes": B(append([]byte{}, buf[:n]...)), "t": p.ms()})
 		}
 		if err != nil {
+			p.mu.Lock()
+			p.peerEnded[[2]int{ep, peer}] = true
+			p.mu.Unlock()
 			p.rec.Put(M{"e": "PeerEnd", "ep": ep, "peer": peer, "t": p.ms()})
 			return
 		}
@@ -697,8 +713,9 @@ func cmdNode(o opts) {
 		nInst: map[int]int{}, opened: map[[2]int]bool{}, closedEv: map[[2]int]bool{}, gates: map[string]*gate{},
 		consumerOn: true, evClosed: make(chan struct{}), closeDone: make(chan struct{}), writers: map[int]chan func(){},
 		peers: map[[2]int]net.Conn{}, listeners: map[int]net.Listener{}, lmode: map[int]string{}, serialFailsLeft: map[int]int{},
-		peerSeq: map[int]int{}, expect: map[int]int64{}}
+		peerSeq: map[int]int{}, expect: map[int]int64{}, peerEnded: map[[2]int]bool{}}
 	p.consCond = sync.NewCond(&p.mu)
+	p.rec.Flush = true
 	p.touch()
 	defer func() {
 		if r := recover(); r != nil {
